@@ -281,6 +281,29 @@ def run(tier, seed, rng, known, replay):
         finally:
             env.rec.enabled = True
             shutil.rmtree(d, ignore_errors=True)
+    # membership under LRU + statistics: get() needs the write lock there (it refreshes the item and counts the hit),
+    # a membership test never does - `in` / has_key keep answering while another client holds the lock
+    for cls_name in ('Cache', 'FanoutCache', 'DjangoCache'):
+        d = tempfile.mkdtemp(prefix='c14m-', dir=root)
+        try:
+            env.rec.enabled = False
+            if cls_name == 'Cache':
+                c = diskcache.Cache(d, timeout=0, disk_min_file_size=8, eviction_policy='least-recently-used', statistics=True)
+                dirs = [d]
+            elif cls_name == 'FanoutCache':
+                c = diskcache.FanoutCache(d, shards=2, timeout=0, disk_min_file_size=8, eviction_policy='least-recently-used', statistics=True)
+                dirs = [os.path.join(d, '%03d' % i) for i in range(2)]
+            else:
+                c = DjangoCache(d, {'SHARDS': 2, 'DATABASE_TIMEOUT': 0, 'OPTIONS': {'disk_min_file_size': 8, 'eviction_policy': 'least-recently-used', 'statistics': True}})
+                dirs = [os.path.join(d, '%03d' % i) for i in range(2)]
+            c.set('k', BIG)
+            env.rec.enabled = True
+            fn = (lambda c: c.has_key('k')) if cls_name == 'DjangoCache' else (lambda c: 'k' in c)
+            judge(cls_name, 'membership under LRU and statistics', fn, ('ok', True), c, dirs)
+            c.close()
+        finally:
+            env.rec.enabled = True
+            shutil.rmtree(d, ignore_errors=True)
     # retry: the call waits and then succeeds once the lock is released after k busy BEGINs
     for k in (1, 3, 7):
         evaluations += 1
